@@ -109,7 +109,7 @@ Section Spec.
   Definition C02_unary_fma_stmt : Prop := for_types types (fun ty n =>
     has (ty ++ "_neg") (fun p => ret p (fun a => map (op1_of O ONeg) (V n 0 a))) /\
     has (ty ++ "_not") (fun p => ret p (fun a => map (op1_of O ONot) (V n 0 a))) /\
-    has (ty ++ "_mul_add") (fma3 n) /\
+    has (ty ++ "_mul_add") (fma3 n) /\ has (ty ++ "_mul_add_free") (fma3 n) /\
     has (ty ++ "_mul_add_ss") (fun p => ret p (fun a => lanes3 (fma O) (V n 0 a) (repeat (a n) n) (repeat (a (n + 1)) n))) /\
     has (ty ++ "_mul_add_vs") (fun p => ret p (fun a => lanes3 (fma O) (V n 0 a) (V n n a) (repeat (a (2 * n)) n))) /\
     Forall (fun form => has (ty ++ "_muladd_" ++ form) (fma3 n)) ["vvv"; "rvv"; "vvr"; "rvr"; "vrv"; "rrv"; "vrr"; "rrr"]).
